@@ -314,3 +314,7 @@ def run(ctx, report: Report) -> None:
                          f'{own_text!r}); expected {exp}: the placeholder is shown only when the control has no content - the empty '
                          f'string or a single newline - and content held in child nodes counts')
 
+    from .sem import descendants_table
+    descendants_table(ctx, r2)
+
+
